@@ -46,14 +46,14 @@ ASSUMPTIONS = [
     "parser_mode='yaml' (and 'json' for one parser shape, judged against the yaml-mode IR: JSONDecodeError takes the place of YAMLError); no jsonnet/toml/omegaconf loaders (toml shows the same integer-digit-limit leak as json did: notes/C03.md), URL/fsspec paths, completions, deprecated error_handler, "
     "JSONARGPARSE_DEBUG unset, stdin closed; functions behind get_class_parser (signature inspection) are summarised (BOUNDARY)",
     "parsers nested below the root (sub-command parsers, ActionParser) may be built with any exit_on_error; what is judged is the channel of the ROOT parser whose parse method is called",
-    "config objects handed to parse_object are dicts or Namespaces (the declared parameter type); argv items are str",
+    "argv items are str (a config object may be anything: a non-mapping must be refused through the channel)",
     "user code run during parsing (registered deserialisers, link compute functions, plain type= callables) keeps to its documented "
     "failure classes",
 ]
 EXHAUSTIVE = {"quick": False, "thorough": False}
 FINDING_CLASSES = dict(T.FINDING_KEYS)
 META = {
-    "level_text": "proof (partial): analysis soundness for all IR programs + single-channel theorem over all executions of the regenerated IR, guarded by 25 finding site classes; implicit runtime exceptions and termination by correspondence only",
+    "level_text": "proof (partial): analysis soundness for all IR programs + single-channel theorem over all executions of the regenerated IR, guarded by 28 finding site classes; implicit runtime exceptions and termination by correspondence only",
     "level_note": (
         "Proved in Coq: (1) C03_analysis_sound — for every exception-flow IR program, table passing the executable post-fixpoint "
         "check, mode and function, every raise site that an execution of the nondeterministic big-step semantics lets escape is in "
@@ -145,7 +145,8 @@ IMPORT_PATHS = ["calendar.Calendar", "calendar.TextCalendar", "calendar.HTMLCale
                 "json.JSONDecoder", "calendar.nomod.X", "5", "", "calendar.isleap", "a b.c",
                 # modules that exist but whose import fails with a plain ImportError (platform guard / optional dependency)
                 "asyncio.windows_events.ProactorEventLoop", "encodings.mbcs.StreamWriter", "c03_needs_extra.Thing", "c03_needs_extra"]
-ODD_NUMBERS = ["\u00b2", "-\u00b3", "\u2460", "\u2082\u2083", "1\u00b2", "\u0663", "\uff11\uff12", "9" * 4400, "-" + "9" * 4400, "1" + "0" * 4400 + ".5",
+HUGE_INTS = ["0x" + "f" * 5000, "0o" + "7" * 6000, "0b" + "1" * 20000, "-0x" + "a" * 5000, "9" * 4400]
+ODD_NUMBERS = HUGE_INTS[:3] + ["\u00b2", "-\u00b3", "\u2460", "\u2082\u2083", "1\u00b2", "\u0663", "\uff11\uff12", "9" * 4400, "-" + "9" * 4400, "1" + "0" * 4400 + ".5",
                "0." + "3" * 500, "1e-400", "--1", "1-2.3e", "+5", "1_000", "0b11", "1e", ".e1", "\u00bd"]
 SCALARS = ODD_NUMBERS[:8] + ["1", "0", "-3", "2.5", "x", "", "null", "true", "1e999", "1_0", "0x1f", "é", "a b", "~", "[]", "{}", "ok", "red", "y", "-", "--", "=", "1e3"]
 BROKEN = ["[1,", "{a: ", "\"", "a: b: c", "!!python/object:os.system x", "&x [*x]", "a: &x [*x]", "*undefined", "- &a [*a]", "{a: &x {b: *x}}",
@@ -154,6 +155,21 @@ BROKEN = ["[1,", "{a: ", "\"", "a: b: c", "!!python/object:os.system x", "&x [*x
           "!!str [a]", "!!int 1_", "!!merge x", "!!seq {a: 1}", "!!map [1]", "[!!timestamp x]", "{k: !!timestamp 1}", "0o9", ": :", "[1, 2", "'"]
 PATHS = ["-", "good.yaml", "bad.yaml", "bin.yaml", "rec.yaml", "empty.yaml", "d", "missing.yaml", "/proc/self/mem", "", ".", "a\x00b", "d/", "good.yaml/x",
          "case.yaml", "/dev/null", "x" * 300]
+def gen_path(rng):
+    """a path-like string from parts: prefix (none, cwd-relative, absolute, home of the current / a named / no user) x a name of
+    the scratch directory or none x a NUL byte before, inside or after any part x trailing separator / sub-path"""
+    prefix = rng.choice(["", "", "", "./", "../", "/", "~", "~/", "~root", "~root/", "/tmp/", "//", "file://", "file:///"])
+    name = rng.choice(["good.yaml", "case.yaml", "missing.yaml", "d", "bin.yaml", "", "a b", "x" * 300])
+    tail = rng.choice(["", "", "", "/", "/x", "/.", "/.."])
+    parts = [prefix, name, tail]
+    r = rng.random()
+    if r < 0.45:  # one NUL byte somewhere
+        k = rng.randrange(3)
+        at = rng.randrange(len(parts[k]) + 1)
+        parts[k] = parts[k][:at] + "\x00" + parts[k][at:]
+    return "".join(parts)
+
+
 STRUCT = ["[1, 2]", "[1, x]", "{k: 1}", "{k: x}", "{class_path: calendar.TextCalendar}", "{class_path: 5}", "{class_path: calendar.Calendar, init_args: 3}",
           "{class_path: calendar.Calendar, init_args: {firstweekday: x}}", "{class_path: calendar.Calendar, init_args: {zz: 1}}",
           "{init_args: {firstweekday: 2}}", "{class_path: [], init_args: {}}", "{x: 1}", "{x: bad}", "{zz: 1}", "[{x: 1}]", "[{x: bad}]", "[{zz: 1}]",
@@ -165,9 +181,16 @@ STRUCT = ["[1, 2]", "[1, x]", "{k: 1}", "{k: x}", "{class_path: calendar.TextCal
 META_KEYS = ["__default_config__", "__path__", "__orig__"]
 
 
+# options whose value is itself a whole sub-configuration (dataclass / nested-parser groups): what is given for the option ITSELF
+GROUP_OPTS = {"dataclass": ["dc", "out", "out.inner", "odc"], "paths": ["inner"], "subcommands": ["fit", "test"]}
+GROUP_VALUES = ["[1, 2]", "[]", "null", "- 1", "empty.yaml", "list.yaml", "good.yaml", "3", "abc", "true", "{}", "{x: 1}", "{v: 2}", "~", "1.5", "[{x: 1}]", "d", "missing.yaml", "!!set {a}"]
+
+
 def gen_name(rng, shape):
     r = rng.random()
     o = rng.choice(OPTS[shape])
+    if r > 0.92 and shape in GROUP_OPTS:
+        return rng.choice(GROUP_OPTS[shape])
     if r < 0.05:
         m = rng.choice(META_KEYS)
         return rng.choice([m, m, o + "." + m, m + ".k"])
@@ -234,8 +257,10 @@ def gen_value(rng):
         return rng.choice(BROKEN)
     if r < 0.53:
         return rng.choice(IMPORT_PATHS)
-    if r < 0.67:
+    if r < 0.62:
         return rng.choice(PATHS)
+    if r < 0.67:
+        return gen_path(rng)
     if r < 0.77:
         return gen_alias(rng)
     if r < 0.80:
@@ -272,9 +297,11 @@ def gen_inline_config(rng, shape):
 def value_for(rng, shape, name):
     value = gen_value(rng)
     if name == "cfg" and rng.random() < 0.7:
-        value = rng.choice(["case.yaml", "case.yaml", gen_inline_config(rng, shape), gen_inline_config(rng, shape), "-"])
+        value = rng.choice(["case.yaml", "case.yaml", gen_inline_config(rng, shape), gen_inline_config(rng, shape), "-", gen_path(rng), gen_path(rng)])
     elif name in ("subcommand", "fit", "test") and rng.random() < 0.7:
         value = rng.choice(SUBCMD_VALUES if name == "subcommand" else SUBCMD_BODIES)
+    elif name in GROUP_OPTS.get(shape, ()) and rng.random() < 0.7:
+        value = rng.choice(GROUP_VALUES)
     return value
 
 
@@ -369,6 +396,10 @@ def gen_object(rng, shape):
                 continue
         obj[name] = val
     r = rng.random()
+    if r > 0.94:
+        # a config "object" that is not a mapping at all
+        return copy.deepcopy(rng.choice([[1], [], "x", "a: 1", None, 5, 2.5, True, [{"a": 1}], {"$": "object"}, {"$": "tuple", "v": [1]}, {"$": "set", "v": [1]},
+                                         {"$": "bytes", "v": "ab"}, {"$": "class"}, {"$": "instance"}, {"$": "dc"}]))
     if r < 0.08:
         return {"$": "ns", "v": obj}
     if r < 0.12:
@@ -493,6 +524,26 @@ def directed():
             add("basic", "parse_string", "a: 2\n%s: %s\n" % (m, v))
             add("basic", "parse_args", ["--cfg=case.yaml"], files={"case.yaml": "%s: %s\n" % (m, v)})
         add("classes", "parse_object", {"cal": {"class_path": "calendar.Calendar", m: 5}})
+    for inp in ([1], "x", None, 5):                                               # parse-object-non-mapping
+        add("basic", "parse_object", inp)
+    add("basic", "parse_args", ["--a=0x" + "f" * 5000, "--print_config"])         # huge-int-rendering
+    add("basic", "parse_args", ["--a=0x" + "f" * 5000])
+    add("plain", "parse_string", "ch: 0x" + "f" * 5000 + "\n")
+    add("plain", "parse_string", "m:\n  +: 0x" + "f" * 5000 + "\n")
+    for x in (False, True):                                                       # cwd-deleted
+        D.append({"shape": "basic", "x": x, "entry": "parse_args", "input": ["--cfg=a: 2"], "cwd": "deleted"})
+        D.append({"shape": "basic", "x": x, "entry": "parse_args", "input": ["--cfg=/proc/self/mem"], "cwd": "deleted"})
+        D.append({"shape": "paths", "x": x, "entry": "parse_args", "input": ["--lp=x.yaml"], "cwd": "deleted"})
+    for pth in ("~\x00", "~root\x00/c.yaml", "~/x\x00", "\x00", "~"):                # NUL bytes around '~'
+        add("basic", "parse_args", ["--cfg=" + pth])
+        add("basic", "parse_env", {"APP_CFG": pth})
+        add("paths", "parse_string", "inner: \"%s\"\n" % pth.replace("\x00", "\\0"))
+        add("basic", "parse_path", pth)
+    for v in ("[1, 2]", "null", "empty.yaml", "list.yaml", "3"):                     # a non-mapping for a group-config option itself
+        add("paths", "parse_args", ["--inner=" + v])
+        add("dataclass", "parse_args", ["--dc=" + v])
+        add("dataclass", "parse_object", {"out": v})
+        add("paths", "parse_env", {"APP_INNER": v})
     # the channels themselves
     add("basic", "parse_args", ["--a=x"])
     add("basic", "parse_args", ["--zz=1"])
@@ -531,12 +582,14 @@ def gen_case(rng, shape=None, entry=None, history=True):
     elif entry == "parse_env":
         c["input"] = gen_env(rng, shape)
     else:
-        c["input"] = rng.choice(PATHS + ["case.yaml"] * 6)
+        c["input"] = rng.choice(PATHS + ["case.yaml"] * 6) if rng.random() < 0.75 else gen_path(rng)
     if rng.random() < 0.5 or "case.yaml" in json.dumps(c["input"]):
         c["files"] = {"case.yaml": gen_text(rng, shape)}
     if shape in ("subcommands", "paths"):
         # parsers nested below the root are not necessarily built with the root's exit_on_error
         c["nested_x"] = rng.choice(["same", "default", "opposite"])
+    if rng.random() < 0.04:
+        c["cwd"] = "deleted"  # environment fault: the working directory of the process is removed before the call
     if rng.random() < 0.12:
         c["stdin"] = "none"   # a process started with file descriptor 0 closed: sys.stdin is None
     if history and rng.random() < 0.22:
@@ -695,6 +748,16 @@ def asked(case):
     return any(a in t.lower() for t in texts for a in _ASKS)
 
 
+def nonmap(case):
+    """is this a parse_object call whose object is not a dict / Namespace?"""
+    inp = case["input"]
+    if case["entry"] != "parse_object":
+        return False
+    if isinstance(inp, dict):
+        return inp.get("$") not in (None, "ns", "items")
+    return True
+
+
 def _depth(t):
     d = m = 0
     for ch in t:
@@ -754,15 +817,15 @@ def g_obs(o):
 def term(case, obs):
     m = ir_meta()
     cid, sites = attribute(obs)
-    return "{| c_x := %s; c_entry := %s; c_obs := %s; c_cls := %s; c_sites := %s; c_selfref := %s; c_deep := %s; c_asked := %s |}" % (
+    return "{| c_x := %s; c_entry := %s; c_obs := %s; c_cls := %s; c_sites := %s; c_selfref := %s; c_deep := %s; c_asked := %s; c_nonmap := %s; c_subcmd := %s |}" % (
         g_bool(case["x"]), g_N(m["entries"][case["entry"]]), g_obs(obs),
-        g_opt(None if cid is None else g_N(cid)), g_list([g_N(i) for i in sites[:12]], "N"), g_bool(selfref(case)), g_bool(deep(case)), g_bool(asked(case)))
+        g_opt(None if cid is None else g_N(cid)), g_list([g_N(i) for i in sites[:12]], "N"), g_bool(selfref(case)), g_bool(deep(case)), g_bool(asked(case)), g_bool(nonmap(case)), g_bool(case["shape"] == "subcommands"))
 
 
 def nontrivial_key(case, obs):
     if obs["k"] == "ret":
         return None
-    return json.dumps([case["shape"], case["x"], case["entry"], case["input"], case.get("dcf"), case.get("files"), case.get("stdin"), case.get("history"), case.get("nested_x")], sort_keys=True)
+    return json.dumps([case["shape"], case["x"], case["entry"], case["input"], case.get("dcf"), case.get("files"), case.get("stdin"), case.get("history"), case.get("nested_x"), case.get("cwd")], sort_keys=True)
 
 
 def category(case, obs):
@@ -785,6 +848,8 @@ def describe(case, obs):
         d["nested_parsers_exit_on_error"] = {"default": "constructor default (True)", "opposite": not case["x"]}[case["nested_x"]]
     if case.get("history"):
         d["earlier_calls_on_the_same_parser"] = case["history"]
+    if case.get("cwd") == "deleted":
+        d["cwd"] = "the working directory (with the scratch files) is removed before the call"
     if case.get("dcf") is not None:
         d["default_config_file_content"] = case["dcf"]
     if case.get("files"):
@@ -807,6 +872,8 @@ def shrink(case):
         yield {k: v for k, v in case.items() if k != "dcf"}
     if case.get("stdin"):
         yield {k: v for k, v in case.items() if k != "stdin"}
+    if case.get("cwd"):
+        yield {k: v for k, v in case.items() if k != "cwd"}
     if case.get("history"):
         yield {k: v for k, v in case.items() if k != "history"}
         if len(case["history"]) > 1:
